@@ -196,6 +196,32 @@ func checkC14(c *Ctx) {
 			}
 			definitelyNF := has && sf.Sentinel == sm.errNotExist && sf.Eq
 			results := eng.ReturnResults(ret)
+			// the handler may hand the error to a helper that renders the outcome
+			if hc, ok := results[len(results)-1].(*ssa.Call); ok {
+				if g := eng.StaticCallee(hc.Common()); g != nil && eng.InModule(g) && len(g.Blocks) > 0 {
+					for i, a := range hc.Call.Args {
+						isE := a == e
+						for _, al := range eng.ValueAliases(e) {
+							if a == al {
+								isE = true
+							}
+						}
+						if ph, ok := a.(*ssa.Phi); ok {
+							for _, ed := range ph.Edges {
+								if ed == e {
+									isE = true
+								}
+							}
+						}
+						if isE && i < len(g.Params) {
+							if why := c.helper404(sm, g, g.Params[i], 0); why != "" {
+								nfBad[p.InstrPos(ret)] = fmt.Sprintf("the error of %s (%s) is handed to %s, which %s", eng.CalleeName(mc.Common()), p.InstrPos(mc), shortFn(g), why)
+							}
+							return
+						}
+					}
+				}
+			}
 			rst := sm.an.Eval(results[len(results)-1], ps.Nil, ret.Block())
 			if rst&eng.NSNon != 0 {
 				nfBad[p.InstrPos(ret)] = fmt.Sprintf("returns a possibly non-nil error at %s on a path where the error of %s (%s) may be storage.ErrNotExist: a missing message is answered 500 instead of 404", p.InstrPos(ret), eng.CalleeName(mc.Common()), p.InstrPos(mc))
@@ -277,7 +303,7 @@ func (c *Ctx) c14ParsedIndex(handlers []*ssa.Function) {
 	}
 	sortFuncs(fns)
 	parseOf := func(v ssa.Value) *ssa.Call {
-		for {
+		for i := 0; i < 8; i++ {
 			switch x := v.(type) {
 			case *ssa.Convert:
 				v = x.X
@@ -285,6 +311,17 @@ func (c *Ctx) c14ParsedIndex(handlers []*ssa.Function) {
 			case *ssa.ChangeType:
 				v = x.X
 				continue
+			case *ssa.UnOp:
+				// a variable captured by a closure: one store
+				if ad := eng.LoadAddr(v); ad != nil {
+					if cell := eng.CellOf(ad); cell != nil && !eng.CellEscapes(cell) {
+						if sts := eng.CellStores(cell); len(sts) == 1 {
+							v = sts[0].Val
+							continue
+						}
+					}
+				}
+				_ = x
 			}
 			break
 		}
@@ -456,6 +493,9 @@ func flowsFromCall(v ssa.Value, obj *types.Func, depth int) bool {
 		}
 	}
 	switch x := v.(type) {
+	case *ssa.Field:
+		// field of a small record returned by a module helper (ref.mailbox)
+		return fieldFlowsFromCall(x.X, x.Field, obj, depth)
 	case *ssa.Extract:
 		if call, ok := x.Tuple.(*ssa.Call); ok && x.Index == 0 {
 			return eng.IsCallTo(call.Common(), obj)
@@ -470,6 +510,23 @@ func flowsFromCall(v ssa.Value, obj *types.Func, depth int) bool {
 		}
 		return len(x.Edges) > 0
 	case *ssa.UnOp:
+		// field of a local record variable assigned as a whole (ref := helper(); ref.mailbox)
+		if fa, ok := x.X.(*ssa.FieldAddr); ok && x.Op == token.MUL {
+			if al, ok := fa.X.(*ssa.Alloc); ok && al.Referrers() != nil {
+				n := 0
+				for _, ref := range *al.Referrers() {
+					if st, ok := ref.(*ssa.Store); ok && st.Addr == ssa.Value(al) {
+						n++
+						if !fieldFlowsFromCall(st.Val, fa.Field, obj, depth+1) {
+							return false
+						}
+					}
+				}
+				if n > 0 {
+					return true
+				}
+			}
+		}
 		if ad := eng.LoadAddr(v); ad != nil {
 			if cell := eng.CellOf(ad); cell != nil && !eng.CellEscapes(cell) {
 				sts := eng.CellStores(cell)
@@ -483,6 +540,36 @@ func flowsFromCall(v ssa.Value, obj *types.Func, depth int) bool {
 		}
 	}
 	return false
+}
+
+// fieldFlowsFromCall: field number field of the record value sv (the result of a module
+// helper) flows from a call of obj on every non-error return of the helper.
+func fieldFlowsFromCall(sv ssa.Value, field int, obj *types.Func, depth int) bool {
+	call, idx := eng.CallAndIndex(sv)
+	if call == nil {
+		return false
+	}
+	rets, g := eng.ReturnedValues(call, idx)
+	if g == nil {
+		return false
+	}
+	n := 0
+	for _, rv := range rets {
+		vals, zero := structFieldValues(rv, field)
+		if zero {
+			continue // zero record on the error return
+		}
+		if len(vals) == 0 {
+			return false
+		}
+		for _, fv := range vals {
+			n++
+			if !flowsFromCall(fv, obj, depth+1) {
+				return false
+			}
+		}
+	}
+	return n > 0
 }
 
 // ---- D3 routes vs client ----
@@ -1013,4 +1100,87 @@ func exprSelects(e ast.Expr, name string, info *types.Info, meta *types.Named) b
 		return true
 	})
 	return found
+}
+
+// helper404: g receives a Manager error in parameter prm; on every path where that error may
+// be storage.ErrNotExist, g must not return a non-nil error and must not return nil without
+// http.NotFound. Returns a complaint or "".
+func (c *Ctx) helper404(sm *storeModel, g *ssa.Function, prm *ssa.Parameter, depth int) string {
+	p := c.P
+	if depth > 2 {
+		return "is too deep to follow"
+	}
+	bad := ""
+	sm.an.Paths(g, func(in ssa.Instruction, ps *eng.PathState) {
+		ret, ok := in.(*ssa.Return)
+		if !ok || bad != "" || (eng.IsRecoverBlock(ret.Block()) && !eng.DefersMayRecover(g)) {
+			return
+		}
+		var e ssa.Value = prm
+		// the parameter's nil-state on this path comes from the branch facts only
+		if st, known := ps.Nil[e]; known && st&eng.NSNon == 0 {
+			return
+		}
+		sf, has := ps.Sent[e]
+		if has && sf.Sentinel == sm.errNotExist && !sf.Eq {
+			return
+		}
+		results := eng.ReturnResults(ret)
+		if len(results) == 0 {
+			return
+		}
+		rst := sm.an.Eval(results[len(results)-1], ps.Nil, ret.Block())
+		if rst&eng.NSNon != 0 {
+			bad = fmt.Sprintf("returns a possibly non-nil error at %s on a path where that error may be storage.ErrNotExist: a missing message is answered 500 instead of 404", p.InstrPos(ret))
+			return
+		}
+		wrote := false
+		for _, prev := range ps.Trace {
+			if call, ok := prev.(*ssa.Call); ok && eng.CalleeName(call.Common()) == "net/http.NotFound" {
+				wrote = true
+			}
+		}
+		definitelyNF := has && sf.Sentinel == sm.errNotExist && sf.Eq
+		st, known := ps.Nil[e]
+		if !wrote && (definitelyNF || known && st == eng.NSNon) {
+			bad = fmt.Sprintf("returns success at %s without http.NotFound on a path where that error is set (possibly storage.ErrNotExist)", p.InstrPos(ret))
+		}
+	})
+	return bad
+}
+
+// structFieldValues: for a struct value rv built as a composite literal (load of a local
+// Alloc whose fields are stored), the values stored into field number field; zero reports
+// that rv is the zero value of the struct.
+func structFieldValues(rv ssa.Value, field int) (vals []ssa.Value, zero bool) {
+	if c, ok := rv.(*ssa.Const); ok && c.Value == nil {
+		return nil, true
+	}
+	u, ok := rv.(*ssa.UnOp)
+	if !ok {
+		return nil, false
+	}
+	al, ok := u.X.(*ssa.Alloc)
+	if !ok || al.Referrers() == nil {
+		return nil, false
+	}
+	stores := 0
+	for _, ref := range *al.Referrers() {
+		fa, ok := ref.(*ssa.FieldAddr)
+		if !ok {
+			continue
+		}
+		for _, r2 := range *fa.Referrers() {
+			if st, ok := r2.(*ssa.Store); ok {
+				stores++
+				if fa.Field == field {
+					vals = append(vals, st.Val)
+				}
+			}
+		}
+	}
+	if stores == 0 {
+		return nil, true // messageRef{} : nothing stored
+	}
+	return vals, false
 }
